@@ -1001,6 +1001,20 @@ def generate(release=False):
                  + "Require Import ZArith List String Bool. Import ListNotations.\n"
                  "Require Import F204.Base.Util F204.Base.Mach F204.Gen.Params.\n"
                  "Open Scope string_scope. Open Scope list_scope. Open Scope Z_scope.\n")
+    # name resolution: the kernels are identified by name, so a name must mean one thing everywhere: no renaming imports of
+    # crate items, and each whole-function kernel is defined exactly once (the add-only hook wrappers aside)
+    g.current = "imports"
+    srcs = {f: R.strip_comments(read("src/" + f)) for f in ("lib.rs", "ml_dsa.rs", "helpers.rs", "high_low.rs", "ntt.rs", "conversion.rs", "encodings.rs", "hashing.rs", "types.rs")}
+    for f, code in srcs.items():
+        for m in re.finditer(r"\buse\s+((?:crate|super|self)\b[^;]*);", code):
+            if re.search(r"\bas\s+\w+", m.group(1)):
+                raise TranslateError("%s: renaming import `use %s;` (a kernel name could silently mean another function)" % (f, " ".join(m.group(1).split())))
+    for fn in ("partial_reduce64", "partial_reduce32", "full_reduce32", "center_mod", "mont_reduce", "decompose", "high_bits", "low_bits",
+               "make_hint", "use_hint", "power2round", "coeff_from_three_bytes", "coeff_from_half_byte", "is_in_range", "to_mont", "add_vector_ntt",
+               "mat_vec_mul", "infinity_norm", "ntt", "inv_ntt", "hint_bit_unpack"):
+        n = sum(len(re.findall(r"\bfn\s+%s\b" % fn, code)) for code in srcs.values())
+        if n != 1:
+            raise TranslateError("fn %s is defined %d times in the crate" % (fn, n))
     h = read("src/helpers.rs")
     for fn in ("partial_reduce64", "partial_reduce32", "full_reduce32", "center_mod", "mont_reduce"):
         g.whole_fn(h, "helpers.rs", fn)
